@@ -233,7 +233,7 @@ def _why(bad):
 # arithmetic helpers
 # ------------------------------------------------------------------------------------------------
 ALIGN_H = {"left": "left", "center": "center", "right": "right"}
-ALIGN_V = {"left": "top", "center": "middle", "right": "bottom"}
+ALIGN_V = {"left": "top", "center": "middle", "right": "bottom", "top": "top", "middle": "middle", "bottom": "bottom"}
 
 
 def eval_calc(case):
@@ -448,15 +448,17 @@ def _columns_random_task(args):
 # child spec: [kind, amount, widget] with (given|weight, n, 'flow'|'box') or (pack, n, 'fixed'|'flow')
 def build_columns_children(specs, d, m, focus):
     items = []
+    boxes = []
     for i, (k, a, wk) in enumerate(specs):
         ch = LETTERS[i]
         if k == "pack":
-            w = Fixed(ch, a, 2) if wk == "fixed" else Flow(ch, rows=1 + i % 2, pref=a)
-            items.append((w, urwid.Columns.options("pack", None, False)))
+            items.append(("pack", Fixed(ch, a, 2) if wk == "fixed" else Flow(ch, rows=1 + i % 2, pref=a)))
         else:
             w = Box(ch) if wk == "box" else Flow(ch, rows=1 + i % 2)
-            items.append((w, urwid.Columns.options(k, a, wk == "box")))
-    return urwid.Columns(items, dividechars=d, focus_column=focus, min_width=m)
+            items.append((a, w) if k == "given" else ("weight", a, w))
+            if wk == "box":
+                boxes.append(i)
+    return urwid.Columns(items, dividechars=d, focus_column=focus, min_width=m, box_columns=boxes)
 
 
 def eval_columns_children(case):
@@ -537,6 +539,8 @@ def _columns_children_task(args):
             for m in ms:
                 for f in range(len(specs)):
                     for size in sizes:
+                        if len(size) == 2 and not all(wk == "box" for _k, _a, wk in specs):
+                            continue  # a Columns is a box widget only when its children are
                         case = {"kind_": "columns_children", "specs": [list(s) for s in specs], "dividechars": d, "min_width": m, "focus": f, "size": list(size)}
                         bad, obs = eval_columns_children(case)
                         t.case(not bad, lambda: case | obs | {"why": _why(bad)}, True, case if size == (7,) else None, rank=(len(specs), size[0], d + m))
@@ -786,7 +790,7 @@ def _zero_task(args):
     t = Tally()
     for container in ("columns", "pile"):
         for specs in spec_lists:
-            if not any(a == 0 for _k, a in specs):
+            if not any(a == 0 for _k, a in specs) or (container == "pile" and any(k == "packF" for k, _a in specs)):
                 continue
             weights = [a for k, a in specs if k == "weight"]
             judged = any(weights) if container == "pile" or weights else True
